@@ -82,10 +82,9 @@ def protocol(rep, tier, scratch):
             continue
         rules = tlc.pick_failing_rules(diags.get(t, []))
         rec = traces[t][stuck - 1] if 0 < stuck <= len(traces[t]) else {}
-        inflight = any(ts >= 2 for _n, ts in scs[t]['comps'][:1])
         rep.violation(
             {'kind': 'trace', 'rules': sorted(rules), 'op': op_kind(scs[t]),
-             'first_comp_ts': scs[t]['comps'][0][1], 'finish': scs[t]['finish'],
+             'first_comp_ts': str(scs[t]['comps'][0][1]), 'finish': scs[t]['finish'],
              'bomb': bool(scs[t].get('bomb'))},
             'parallel protocol trace rejected at record %d (%s): rules %s; scenario %s'
             % (stuck, json.dumps(rec), sorted(rules), json.dumps(scs[t])),
